@@ -59,6 +59,25 @@ Theorem C02_budget_and_counts : forall (calls : list (vec * Z)) a, acct_ok a -> 
   let a' := fold_left (fun a c => acct_eval a (fst c) (snd c)) calls a in
   a_nf a' <= a_maxfun a' /\ lenZ (a_log a') = a_nf a' /\ last_pt (a_log a') 0 = a_nx a'.
 Proof. exact acct_budget. Qed.
+(* a whole run of solve_main: the x0 block followed by any sequence of evaluate_objective calls, started from any
+   well-formed accounting state (the previous runs'), ends in a well-formed accounting state within the budget *)
+Theorem C02_whole_run_accounting : forall nf0 nx0 mf ns x0 sc orc log orc' log' nf nx run ex (calls : list (vec * Z)),
+  acct_ok {| a_nf := nf0; a_nx := nx0; a_maxfun := mf; a_log := log |} -> 1 <= ns -> nf0 < mf ->
+  py_solver_x0_block nf0 nx0 mf ns x0 sc orc log = Ok (orc', log', (nf, nx, run, ex)) ->
+  Forall (fun c => 0 <= snd c) calls ->
+  let a' := fold_left (fun a c => acct_eval a (fst c) (snd c)) calls {| a_nf := nf; a_nx := nx; a_maxfun := mf; a_log := log' |} in
+  acct_ok a' /\ a_nf a' <= mf /\ lenZ (a_log a') = a_nf a'.
+Proof.
+  intros nf0 nx0 mf ns x0 sc orc log orc' log' nf nx run ex calls Ha Hns Hlt Hx Hc.
+  destruct (C02_x0_block_refines_accounting _ _ _ _ _ _ _ _ _ _ _ _ _ _ Hns Hlt Hx) as (E & _). cbv zeta. rewrite E.
+  assert (Ha1: acct_ok (acct_eval {| a_nf := nf0; a_nx := nx0; a_maxfun := mf; a_log := log |} (py_util_remove_scaling x0 sc) ns))
+    by (apply acct_eval_ok; [exact Ha|lia]).
+  pose proof (acct_run_ok calls _ Ha1 Hc) as Hok. split; [exact Hok|].
+  destruct (acct_budget calls _ Ha1 Hc) as (H1 & H2 & _). split; [|exact H2].
+  assert (Em: forall cs a, a_maxfun (fold_left (fun a c => acct_eval a (fst c) (snd c)) cs a) = a_maxfun a).
+  { induction cs as [|c cs IH]; intros a; cbn [fold_left]; [reflexivity|]. rewrite IH. reflexivity. }
+  rewrite Em in H1. exact H1.
+Qed.
 (* non-vacuity: the empty log with any positive budget is a well-formed accounting state *)
 Example C02_initial_state_ok : forall mf, 0 <= mf -> acct_ok {| a_nf := 0; a_nx := 0; a_maxfun := mf; a_log := [] |}.
 Proof. intros mf H. unfold acct_ok. cbn. repeat split; auto; lia. Qed.
@@ -116,6 +135,7 @@ Proof. vm_compute. reflexivity. Qed.
 
 Print Assumptions C02_evaluate_objective_accounting.
 Print Assumptions C02_x0_block_refines_accounting.
+Print Assumptions C02_whole_run_accounting.
 Print Assumptions C02_log_wellformed_forever.
 Print Assumptions C02_budget_and_counts.
 Print Assumptions C02_no_other_counter_write.
